@@ -14,6 +14,7 @@ import traceback
 
 VERIF = os.path.dirname(os.path.dirname(os.path.abspath(__file__)))
 NPROC = int(os.environ.get('VERIF_NPROC', '16'))
+OUT = os.environ.get('VERIF_OUT') or VERIF   # evidence/ and replays/ go here (redirected by the self-test)
 
 
 def canon(obj):
@@ -24,8 +25,16 @@ def case_hash(obj):
     return hashlib.sha1(canon(obj).encode()).hexdigest()[:16]
 
 
-class Failure(dict):
-    pass
+def tool_exception_sig(e):
+    """Signature for an exception raised *by the code under test* (innermost frame inside ssh_audit);
+    returns None when the exception comes from the harness itself."""
+    tb = traceback.extract_tb(e.__traceback__)
+    if tb and '/ssh_audit/' in tb[-1].filename:
+        return 'tool-raised:%s@%s' % (type(e).__name__, tb[-1].name)
+    fr = [f for f in tb if '/ssh_audit/' in f.filename]
+    if fr and not any('/verif/' in f.filename for f in tb[tb.index(fr[-1]) + 1:]):
+        return 'tool-raised:%s@%s' % (type(e).__name__, fr[-1].name)
+    return None
 
 
 def mkres(case, key=None, nt=False, classes=(), fails=(), info=None):
@@ -227,7 +236,7 @@ class Ctx:
         self.shrink_buckets()
         violations = 0
         known_hit = []
-        os.makedirs(os.path.join(VERIF, 'replays'), exist_ok=True)
+        os.makedirs(os.path.join(OUT, 'replays'), exist_ok=True)
         for sig in sorted(self.buckets):
             b = self.buckets[sig]
             k = [k for k in self.known if k['signature'] == sig and k['status'] == 'finding']
@@ -236,7 +245,7 @@ class Ctx:
                 print('KNOWN-FINDING: property=%s %s [%s; %d case(s) this run]' % (self.pid, k[0]['what'], sig, b['count']))
                 continue
             violations += 1
-            path = os.path.join(VERIF, 'replays', '%s-%s.json' % (self.pid, hashlib.sha1(sig.encode()).hexdigest()[:10]))
+            path = os.path.join(OUT, 'replays', '%s-%s.json' % (self.pid, hashlib.sha1(sig.encode()).hexdigest()[:10]))
             with open(path, 'w') as f:
                 json.dump({'property': self.pid, 'signature': sig, 'detail': b['detail'], 'count': b['count'], 'case': b['case'], 'seed': self.seed, 'tier': self.tier}, f, indent=1, default=str)
             print('VIOLATION property=%s replay=%s' % (self.pid, path))
@@ -258,8 +267,8 @@ class Ctx:
             'property_id': self.pid, 'tier': self.tier, 'seed': self.seed, 'level': level,
             'coverage': cov, 'assumptions': list(assumptions), 'wall_s': round(time.time() - self.t0, 2), 'violations': violations,
         }
-        os.makedirs(os.path.join(VERIF, 'evidence'), exist_ok=True)
-        with open(os.path.join(VERIF, 'evidence', '%s.json' % self.pid), 'w') as f:
+        os.makedirs(os.path.join(OUT, 'evidence'), exist_ok=True)
+        with open(os.path.join(OUT, 'evidence', '%s.json' % self.pid), 'w') as f:
             json.dump(ev, f, indent=1, default=str)
         print('%s %s seed=%d: %d cases, %d distinct non-trivial, %d known finding(s), %d violation(s), %.1fs' % (self.pid, self.tier, self.seed, self.evaluations, len(self.nt_keys), len(known_hit), violations, time.time() - self.t0))
         if self.evaluations == 0 or len(self.nt_keys) < 2:
